@@ -47,4 +47,17 @@ def run(res):
             s["use_cpu_flags"] = fl
             cs.append({"args": list(base), "sets": s, "n": n, "w": w, "h": h, "bits": bits})
         groups.append((obsfam.key_of(cs[0], ignore=("use_cpu_flags",)), cs))
+    # SIMD kernels are selected by block width, and the blocks at the right / bottom picture edge (and their down-scaled versions in
+    # hierarchical motion estimation: 1/2 and 1/4 size) take every width the picture size leaves: sweep the residues of the picture
+    # size modulo the superblock size, with content whose motion makes the search results matter; C vs AVX2 vs ALL
+    sizes = [(72, 72), (88, 64), (104, 72), (120, 72)] if res.tier == "quick" else \
+            [(64 + r, 72) for r in range(8, 64, 8)] + [(128, 64 + r) for r in range(8, 64, 8)] + [(360, 240), (184, 104)]
+    for i, (w, h) in enumerate(sizes):
+        for content, bits in ((("fastpan", 8),) if res.tier == "quick" else (("fastpan", 8), ("noise", 8), ("fastpan", 10))):
+            base = ["-n", "6", "-w", str(w), "-h", str(h), "--bits", str(bits), "--content", content, "--cseed", str(11 + i)]
+            cs = []
+            for fl in (FLAGS[0], FLAGS[4], FLAGS[5]):
+                cs.append({"args": list(base), "sets": {"enc_mode": 8, "recon_enabled": 1, "logical_processors": 1, "qp": 32, "use_cpu_flags": fl},
+                           "n": 6, "w": w, "h": h, "bits": bits})
+            groups.append((obsfam.key_of(cs[0], ignore=("use_cpu_flags",)), cs))
     obsfam.run_groups(res, groups, timeout=240, what="C06 independence of the instruction set")
